@@ -189,6 +189,9 @@ func drawC07(t *rapid.T) *Case {
 	p.Args, aux.N = drawPrioLimit(t, sc.NPrio)
 	p.YieldInjector = !race
 	p.Fences = !race && drawBool(t, "fences", 50)
+	// park the serve loop between the critical sections of one frame's capture
+	p.CaptureFences = !race && drawBool(t, "capturefences", 60)
+	p.Args = append(p.Args, "-reverse-proxy-flush-interval", "0s")
 	p.Tape, p.Tail = drawTape(t, 128)
 	c := &Case{Plan: p, Metas: []*ClientMeta{m}, Oracle: oracleC03, Aux: aux}
 	c.Nontrivial = func(w *World, c *Case) bool { return len(w.BackReqs) >= 2 }
